@@ -3,7 +3,7 @@
 import ast
 import re
 
-from ..loader import norm, full, walk_local, walk_local_ordered
+from ..loader import NormStr, norm, full, walk_local, walk_local_ordered
 from .. import util as U
 
 EXPLANATION = (
@@ -265,7 +265,7 @@ def rule_free(ctx):
         for i, (which, nb, T, mg) in enumerate(merges):
             if mg is None:
                 continue          # helper form, judged above
-            src = ' ; '.join(norm(s) for s in mg.body)
+            src = NormStr(' ; '.join(norm(s) for s in mg.body))
             other = 'prev' if which == '_find_previous' else 'next'
             gone = blk if which == '_find_previous' else nb
             ok = f'self._array[{T}.start - self.addr_offset] = {T}' in src and f'self._array[{gone}.start - self.addr_offset] = None' in src and \
@@ -341,6 +341,8 @@ def rule_node(ctx):
             cp = U.compare_parts(s.test)
             if cp and norm(cp[0]) == i.params[1] and cp[1] is ast.Gt and isinstance(s.body[0], ast.Raise):
                 lim = U.num_value(cp[2])
+            if cp and norm(cp[2]) == i.params[1] and cp[1] is ast.Lt and isinstance(s.body[0], ast.Raise):      # canonical spelling: limit < user
+                lim = U.num_value(cp[0])
     ctx.ob('C16.node', f'{i.fq}:user-limit', lim is not None and (lim + 1) << shift <= 1 << 31,
            f'user ids above {lim} are refused; (limit+1) << {shift} must stay inside a positive int32', i.node, mod)
     # the advertised id range of a client (id_offset, num_ids: used for the default group ids) is the same window
@@ -358,8 +360,8 @@ def rule_node(ctx):
     ctx.ob('C16.node', f'{dg.fq}:default-group-id', 'self._node_allocator.num_ids * client_id + 1' in full(dg.node),
            'default group of a client is the first permanent id of its window', dg.node, srv.module)
     fp = ci.methods['free_perm']
-    ctx.ob('C16.node', f'{fp.fq}:mask', f'id = id & {(1 << shift) - 1}' in full(fp.node) or f'id = id & 0x{(1 << shift) - 1:08X}' in full(fp.node) or
-           'id = id & 67108863' in full(fp.node), 'the same window mask strips the client prefix', fp.node, mod)
+    ctx.ob('C16.node', f'{fp.fq}:mask', f'id &= {(1 << shift) - 1}' in full(fp.node) or f'id &= 0x{(1 << shift) - 1:08X}' in full(fp.node) or
+           'id &= 67108863' in full(fp.node), 'the same window mask strips the client prefix', fp.node, mod)
     w = ctx.repo.func('sc3.base.builtins:wrap')
     ctx.ob('C16.node', f'{w.fq}:defined', w is not None, 'wrap kernel exists', w.node, w.module, nontrivial=False)
 
